@@ -62,6 +62,19 @@ pub trait Resolve: {
     fn resolve(&self, r: PlainRef) -> Result<Primitive> {
         self.resolve_flags(r, ParseFlags::ANY, 16)
     }
+    /// Like `resolve`, but an object whose value is itself a reference is followed (at most 16
+    /// times): what comes back is never a reference.  For readers that would otherwise resolve
+    /// and look again, without end on `9 0 obj 9 0 R endobj`.
+    fn resolve_value(&self, r: PlainRef) -> Result<Primitive> {
+        let mut r = r;
+        for _ in 0 .. 16 {
+            match self.resolve(r)? {
+                Primitive::Reference(next) => r = next,
+                p => return Ok(p)
+            }
+        }
+        Err(PdfError::Other { msg: format!("chain of references ending at object {} does not end", r.id) })
+    }
     fn get<T: Object+DataSize>(&self, r: Ref<T>) -> Result<RcRef<T>>;
     fn options(&self) -> &ParseOptions;
     fn stream_data(&self, id: PlainRef, range: Range<usize>) -> Result<Arc<[u8]>>;
@@ -588,7 +601,7 @@ impl Object for Dictionary {
     fn from_primitive(p: Primitive, r: &impl Resolve) -> Result<Self> {
         match p {
             Primitive::Dictionary(dict) => Ok(dict),
-            Primitive::Reference(id) => Dictionary::from_primitive(r.resolve(id)?, r),
+            Primitive::Reference(id) => Dictionary::from_primitive(r.resolve_value(id)?, r),
             _ => Err(PdfError::UnexpectedPrimitive {expected: "Dictionary", found: p.get_debug_name()}),
         }
     }
@@ -619,7 +632,7 @@ impl<T: Object> Object for Vec<T> {
             Primitive::Null => {
                 Vec::new()
             }
-            Primitive::Reference(id) => Self::from_primitive(r.resolve(id)?, r)?,
+            Primitive::Reference(id) => Self::from_primitive(r.resolve_value(id)?, r)?,
             _ => vec![T::from_primitive(p, r)?]
         }
         )
@@ -660,7 +673,7 @@ impl Object for Data {
             Primitive::Null => {
                 Vec::new()
             }
-            Primitive::Reference(id) => Self::from_primitive(r.resolve(id)?, r)?,
+            Primitive::Reference(id) => Self::from_primitive(r.resolve_value(id)?, r)?,
             _ => 
         }
     }
@@ -724,7 +737,7 @@ impl<V: Object> Object for HashMap<Name, V> {
                 }
                 Ok(new)
             }
-            Primitive::Reference (id) => HashMap::from_primitive(resolve.resolve(id)?, resolve),
+            Primitive::Reference (id) => HashMap::from_primitive(resolve.resolve_value(id)?, resolve),
             p => Err(PdfError::UnexpectedPrimitive {expected: "Dictionary", found: p.get_debug_name()})
         }
     }
